@@ -181,7 +181,7 @@ fn cases(tier: Tier) -> Vec<Case> {
             for a in seqs(&senders, 1) {
                 for b in seqs(&senders, 1) {
                     for c in seqs(&mixed, 1) {
-                        v.push(make_case(&[a.clone(), b.clone(), c], mb, work, false, false, if tier == Tier::Quick { Some(4) } else { None }));
+                        v.push(make_case(&[a.clone(), b.clone(), c], mb, work, false, false, None));
                     }
                 }
             }
